@@ -17,6 +17,7 @@ from props import c09_util as U9
 
 PROP = "C09"
 LEVEL = "proof"
+INCLUDE = ['w4s_c09']   # wave 4 (lead, integration): generated skeleton of the cp_als main loop (Gen/GenCpAls.v): bridge theorem + replay stream sk_cpals
 GEN_UNITS = ["GenCpAls"]
 COQ_TARGETS = ["Props/C09.vo", "Props/C09b.vo", "Props/C09c.vo", "Model/C09Exec.vo", "Model/C09Init.vo", "Model/C09Replay.vo", "Model/Harness.vo"]
 THEOREM_FILES = ["Props/C09.v", "Props/C09b.v", "Props/C09c.v"]
@@ -556,6 +557,8 @@ def _one_run(ttb, np, a, m, record=False):
                         w.append(float(A[:, r] @ after[:, r]) / den if den != 0 else 0.0)
                 except Exception:
                     w = None
+                if w is not None and not all(math.isfinite(x) for x in w):
+                    w = None                 # (untrusted hint; a non-finite one is no hint)
                 hints.append(w)
         o["hints"] = hints
     return o
